@@ -45,7 +45,10 @@ def abstract(dag):
                 bw=p.pipeline.function == apply_blockwise,
                 fp=bool(p.fusable_with_predecessors), fs=bool(p.fusable_with_successors),
                 nt=int(p.num_tasks), proj=int(p.projected_mem), allowed=int(p.allowed_mem), reserved=int(p.reserved_mem),
-                nib=[int(x) for x in cfg.num_input_blocks] if isinstance(cfg, BlockwiseSpec) else [],
+                # block counts are only ever compared with small limits (max_total_num_input_blocks <= 10 here): capped (Model.DagObs.NIB_CAP,
+                # the comparison is made up to the same cap) so that nat literals and their products stay small; a count above the
+                # cap behaves like the cap for every limit in use
+                nib=[min(int(x), 200) for x in cfg.num_input_blocks] if isinstance(cfg, BlockwiseSpec) else [],
                 cm=cm, srcs=[nid(a) for a in p.source_array_names])
         ops.append(dict(id=nid(n), ins=ins, outs=outs, prim=prim))
     return ops, virtuals
